@@ -15,6 +15,12 @@ CHECKS = {
  "C03": ("explicit-state search over (abstract point, projective representative) states: all ordered pairs x group operations x alias partitions, representation drift to depth 2, against affine chord-and-tangent arithmetic",
          "Explicit-state exploration: states are exact projective representatives (several Z per abstract point, built through the unchecked-constructor hook, plus representatives that arise from Add/Subtract/Double chains); every ordered pair of states is put through Add, Subtract, ConditionalSelect and the raw addComplete/addMixed formulas under all 5 alias partitions, every state through Double/Negate/Set/ConditionalNegate/rescale; each result is validated from raw coordinates (on curve, not (0,0,0), identity shape), compared with the affine reference sum, and all observers (Equal both ways, IsIdentity, IsYOdd, three encodings) are required to depend on the abstract value only. Exceptional relations (inf, P=Q, P=-Q, same-y endomorphism images) are populated classes.",
          "Trusted: Go toolchain, math/big, /verif/ref affine arithmetic. Completeness of the formulas for field values outside the alphabet is a theorem (Renes-Costello-Batina), not enumerated; drift capped per abstract point (cap reported).", "DESIGN.md §6 C03"),
+ "C06": ("skeleton x bounded-deviation enumeration of byte strings (every length 0..66, all 256 prefixes, +p aliases, 1 deviation = every position x all 256 values) through every decoder with every receiver kind; RecoverPoint x all 256 ids; against a SEC 1 reference codec",
+         "Bounded exhaustive input-space exploration: every enumerated string is decoded by SetBytes / SetCompressedBytes / SetUncompressedBytes / NewPointFromBytes with four kinds of pre-loaded receiver (zero value, G, identity, Z != 1); accept/reject, decoded point, bit-identical receiver on failure (limb hook), decode-then-encode and encode-then-decode identities and per-(point,format) uniqueness of the accepted string are checked against the reference. NewPointFromCoords over a coordinate pool incl. values >= p; RecoverPoint for every id 0..255 over r values on both sides of the x+n<p boundary.",
+         "Trusted: Go toolchain, math/big, /verif/ref SEC 1 codec (validated on Wycheproof keys). Strings are a structured corpus, not all 256^66.", "DESIGN.md §6 C06"),
+ "C12": ("grammar skeletons x bounded deviations (1: every position x all 256 values; 2: grammar alphabet; truncate/extend/insert/delete; all short strings) through every parser, against strict recognisers written from X.690 / BIP-66 / RFC 5480; build/parse identities",
+         "Bounded exhaustive exploration of the four wire formats: ~11 M distinct strings per quick run are parsed by the implementation (inside recover()) and by recursive-descent recognisers of the grammars; accepted inputs must re-encode to themselves (uniqueness), (r,s,v) triples must survive build-then-parse in all three formats, SPKI inputs include every unused-bits value with shifted content, foreign OIDs, non-minimal arcs and a SEC 1 payload corpus; a caller-mutation step after parsing checks the key does not alias the input.",
+         "Trusted: Go toolchain, /verif/ref/der.go recognisers (validated on the Wycheproof and BIP-66 vectors). The space of all byte strings is covered by skeleton+deviation structure up to 2 deviations.", "DESIGN.md §6 C12"),
 }
 
 PENDING_REASON = "check under construction in this round; not yet claimed (see DESIGN.md §6 for the planned bounded-exhaustive check)"
